@@ -267,16 +267,26 @@ pub struct Sim {
     sock_owner: std::cell::RefCell<std::collections::HashMap<i32, (usize, u64)>>,
 }
 
+/// The HTTP minor version a client uses for the request with this tag (a third are HTTP/1.0).
+pub fn tag_version(tag: &str) -> u8 {
+    if crate::util::fnv64(tag.as_bytes()) % 3 == 0 {
+        0
+    } else {
+        1
+    }
+}
+
 pub fn make_request(tag: &str, kind: ReqKind) -> Vec<u8> {
+    let minor = tag_version(tag);
     match kind {
-        ReqKind::Get => format!("GET {} HTTP/1.1\r\nX-Tag: {}\r\n\r\n", tag, tag).into_bytes(),
+        ReqKind::Get => format!("GET {} HTTP/1.{}\r\nX-Tag: {}\r\n\r\n", tag, minor, tag).into_bytes(),
         ReqKind::PutBody(n) => {
             let mut body = format!("<{}>", tag).into_bytes();
             while body.len() < n {
                 body.push(b'b');
             }
             body.truncate(n.max(1));
-            let mut v = format!("PUT {} HTTP/1.1\r\nContent-Type: application/json\r\nContent-Length: {}\r\n\r\n", tag, body.len()).into_bytes();
+            let mut v = format!("PUT {} HTTP/1.{}\r\nContent-Type: application/json\r\nContent-Length: {}\r\n\r\n", tag, minor, body.len()).into_bytes();
             v.extend_from_slice(&body);
             v
         }
@@ -286,7 +296,7 @@ pub fn make_request(tag: &str, kind: ReqKind) -> Vec<u8> {
                 body.push(b'e');
             }
             body.truncate(n.max(1));
-            let mut v = format!("PUT {} HTTP/1.0\r\nExpect: 100-continue\r\nContent-Length: {}\r\n\r\n", tag, body.len()).into_bytes();
+            let mut v = format!("PUT {} HTTP/1.{}\r\nExpect: 100-continue\r\nContent-Length: {}\r\n\r\n", tag, minor, body.len()).into_bytes();
             v.extend_from_slice(&body);
             v
         }
@@ -929,6 +939,10 @@ pub struct ClientVerdict {
     pub partial_tail: usize,
 }
 
+/// Whether the version of interim responses is judged (C13 only: the other properties that share
+/// this judge say nothing about it).
+pub static JUDGE_INTERIM_VERSION: std::sync::atomic::AtomicBool = std::sync::atomic::AtomicBool::new(false);
+
 pub struct JudgeOpts {
     /// 500 responses are tolerated (C07/C09) or unexpected (C08)
     pub allow_500: bool,
@@ -975,6 +989,15 @@ pub fn judge_client(g: &GenRec, opts: &JudgeOpts) -> Result<ClientVerdict, (Stri
         match r.code {
             100 => {
                 v.continues += 1;
+                if !has_parse_error && JUDGE_INTERIM_VERSION.load(std::sync::atomic::Ordering::Relaxed) {
+                    // the k-th interim response answers the k-th request that asks for one: same version
+                    let want = m.events.iter().filter_map(|e| if let M1Event::Continue100 { version, .. } = e { Some(*version) } else { None }).nth(v.continues - 1);
+                    if let Some(w) = want {
+                        if w != r.version {
+                            return Err(("interim-response-version".into(), format!("c{}g{}: interim response #{} carries HTTP/1.{}, the request that asked for it is HTTP/1.{}", g.client, g.gen, v.continues, r.version, w)));
+                        }
+                    }
+                }
                 if v.continues > allowed_100 {
                     return Err(("unexplained-100".into(), format!("c{}g{} received {} interim responses, its input justifies {}", g.client, g.gen, v.continues, allowed_100)));
                 }
@@ -1015,6 +1038,10 @@ pub fn judge_client(g: &GenRec, opts: &JudgeOpts) -> Result<ClientVerdict, (Stri
                         }
                         next_supplied = idx + 1;
                     }
+                }
+                // the application answers with the version of the request it was handed
+                if r.version != tag_version(&tag) {
+                    return Err(("yielded-version".into(), format!("c{}g{}: the response for {:?} carries HTTP/1.{}, i.e. the request was yielded with that version; it was sent as HTTP/1.{}", g.client, g.gen, tag, r.version, tag_version(&tag))));
                 }
                 seen_tags.push(tag);
                 v.app_responses += 1;
